@@ -242,6 +242,10 @@ def eval_op(op, vals, sizes, w, env=None):
             return (~vals[0]) & m
         if op == 'CC_POS':
             return (~vals[0]) & m
+        if op == 'CC_sOVR':          # signed overflow set (ARM VS); explicit formula added by fix ee37766
+            return vals[0] & m
+        if op == 'CC_sNOOVR':        # signed overflow clear (ARM VC)
+            return (~vals[0]) & m
         raise Uninterpreted(op)
     raise Uninterpreted(op)
 
